@@ -243,12 +243,13 @@ impl<F: Filter, S: PtpInstanceStateMutex> PtpInstance<F, S> {
         &self,
         ports: &mut [&mut Port<'_, InBmca, A, R, C, F, S>],
     ) {
+        // Before the first port is added the interval is still at its initial
+        // (maximal) value, which does not fit a `Duration`: saturate at 2^64 s
+        let log_bmca_interval = self.log_bmca_interval.load(Ordering::Relaxed).min(64);
         self.state.with_mut(|state| {
             state.bmca(
                 ports,
-                Duration::from_seconds(
-                    2f64.powi(self.log_bmca_interval.load(Ordering::Relaxed) as i32),
-                ),
+                Duration::from_seconds(2f64.powi(log_bmca_interval as i32)),
             );
         });
     }
